@@ -347,6 +347,26 @@ def run(rep, tier, seed):
                         rep.violation('property', 'behaviour: context reloaded from JSON decompresses differently: %s vs %s' % (str(s1)[:80], str(s2)[:80]),
                                       dict(layer='json', op='behaviour', context=ctx.json(), schc=o1[1], direction=str(d)))
 
+    # another host: the JSON text of the context is all that crosses; a fresh interpreter loads it and must compress and decompress as
+    # the manager of the original context does here
+    import freshproc
+    tasks, expected = [], []
+    for ctx, stack, pkt, d in ctxs[:(60 if not T else 400)]:
+        out = impl_outcome(lambda: ctx.json())
+        if out[0] != 'OK':
+            continue
+        cm1 = ContextManager(ctx)
+        dc = DIRC[DI(d)]
+        for strat in ('first', 'best'):
+            o1 = obs_bits(with_timeout(lambda: cm1.compress(Buffer(pkt, len(pkt) * 8), direction=d, match_strategy=MatchStrategy(strat))))
+            tasks.append(dict(op='cm-compress', context=out[1], packet=pkt.hex(), direction=dc, strategy=strat))
+            expected.append(o1)
+            if o1[0] == 'OK' and isinstance(o1[1], str) and strat == 'first':
+                o2 = obs_bits(with_timeout(lambda: cm1.decompress(mk(o1[1], R), direction=d)))
+                tasks.append(dict(op='cm-decompress', context=out[1], schc=o1[1], direction=dc, side='R'))
+                expected.append(o2)
+    freshproc.compare(rep, 'C12:manager-on-reloaded-context', tasks, expected, lambda t: '%s with the context loaded from its JSON text' % t['op'])
+
 
 def replay(case):
     if case.get('op') == 'behaviour':
